@@ -57,6 +57,7 @@ type caseT struct {
 	Input   string   `json:"quoted"`
 	At      int      `json:"offending_offset"`
 	EOF     bool     `json:"eof"`
+	GoTest  string   `json:"go_test,omitempty"`
 }
 
 func interToken(m jsonref.Mode) bool {
@@ -288,6 +289,7 @@ func judge(c *core.Ctx, m *mach.M, mode string, in []byte, k int, eof bool) {
 		if disc != "col-off-by-chunk-offset" {
 			sig = core.Sig(sig, "mode="+mode)
 		}
+		cs.GoTest = mach.GoTest(m.Name, entry, chunks, false)
 		c.Fail(sig, cs, len(in)*10+len(chunks), fmt.Sprintf("%d:%d", el, ec), fmt.Sprintf("%d:%d (%v)", l, col, o.Err))
 	}
 	if el > 1 {
